@@ -1321,6 +1321,9 @@ class Interp(object):
     if isinstance(obj, _Super):
       v, owner = obj.self_val.cls.lookup(name, after=obj.cls) if isinstance(obj.self_val, Obj) else obj.self_val.lookup(name, after=obj.cls)
       if v is None:
+        if name in ("__init__", "__init_subclass__", "__setattr__"):
+          # object.__init__ (or an unmodelled external base): no-op
+          return Builtin("object." + name, lambda ip, *a, **k: None)
         raise PyRaise("AttributeError", (name,), node)
       if isinstance(obj.self_val, Obj):
         return self.bind_attr(v, obj.self_val, obj.self_val.cls)
